@@ -39,6 +39,12 @@ def to_mqtt_rule(analysis: Analysis, res: RuleResult) -> None:
         raise AnalysisError(f"C17-R1: {TO_MQTT} does not return a (topic, payload, qos) tuple in a recognised form")
     topic, payload, qos = ret[0].value.elts
     txt = unparse(topic)
+    mvar = None
+    for n in ast.walk(info.node):
+        if isinstance(n, ast.Assign) and isinstance(n.value, ast.Call) and isinstance(n.value.func, ast.Name) and n.value.func.id == "Message" and isinstance(n.targets[0], ast.Name):
+            mvar = n.targets[0].id
+    if mvar is None:
+        raise AnalysisError(f"C17-R1: {TO_MQTT} does not decode the command with Message(...)")
     # topic = "/" + encode('/') with the payload emptied, minus the trailing "/\n"
     uses_codec = "encode('/')" in txt
     res.add("C17-R1", f"{TO_MQTT} / topic is the frame template rendered with '/'", uses_codec, w, txt)
@@ -54,13 +60,13 @@ def to_mqtt_rule(analysis: Analysis, res: RuleResult) -> None:
     save_i = clear_i = None
     pay_name = unparse(payload)
     for i, s in enumerate(body):
-        if isinstance(s, ast.Assign) and unparse(s.targets[0]) == pay_name and "msg.payload" in unparse(s.value):
+        if isinstance(s, ast.Assign) and unparse(s.targets[0]) == pay_name and f"{mvar}.payload" in unparse(s.value):
             save_i = i
-        if isinstance(s, ast.Assign) and unparse(s.targets[0]) == "msg.payload" and isinstance(s.value, ast.Constant) and s.value.value == "":
+        if isinstance(s, ast.Assign) and unparse(s.targets[0]) == f"{mvar}.payload" and isinstance(s.value, ast.Constant) and s.value.value == "":
             clear_i = i
     ok = save_i is not None and clear_i is not None and save_i < clear_i
     res.add("C17-R1", f"{TO_MQTT} / payload is carried separately (saved, then cleared before rendering)", ok, w, f"saved at statement {save_i}, cleared at {clear_i}")
-    res.add("C17-R1", f"{TO_MQTT} / QoS is the message's ack flag", unparse(qos) == "msg.ack", w, unparse(qos))
+    res.add("C17-R1", f"{TO_MQTT} / QoS is the message's ack flag", unparse(qos) == f"{mvar}.ack", w, unparse(qos))
     parses = any(isinstance(c.func, ast.Name) and c.func.id == "Message" for c in common.calls_in(info.node))
     res.add("C17-R1", f"{TO_MQTT} / the command string is decoded by the wire codec", parses, w, "Message(data, self)")
 
